@@ -26,6 +26,10 @@
      modelled here (LW.Backend.KeyEnvelope); theorems assume [kek_supported], the harness checks
      them on the Go side only.
    * Description strings and logging are not modelled.  Lifetime is never set by the code: [None].
+   * Repairs of the audit findings are mirrored: an undecodable typed member is answered with the mirrored
+     JoinAns / RejoinAns / HomeNSAns (400 Other), RxDelay outside 0..15 and a negative JoinNonce are
+     refused, the JoinEUI of the MIC / key derivations is the one of the join-request (rejoin type 1)
+     frame, ReceiverID only has to be an EUI64 text.
    * A Go run-time panic inside the handler would be [APanic]; JoinServerProofs.handle_no_panic
      shows the model never produces it.
 
@@ -72,7 +76,11 @@ Record request := mkRequest {
   r_cflist : jval           (* CFList (HEXBytes, omitempty) *)
 }.
 
-Inductive body := BadJSON | Body (r : request).
+(* [BadJSON]: encoding/json refuses the body already for the BasePayload (syntax error, wrong JSON kind
+   or range of a base member).  [BadMember r]: the BasePayload decodes to the base fields of [r], but
+   encoding/json refuses a member of the typed payload of that message type (wrong JSON kind, number
+   out of range).  [Body r]: encoding/json accepts everything. *)
+Inductive body := BadJSON | BadMember (r : request) | Body (r : request).
 
 (* ---------- answer ---------- *)
 Inductive rescode := RSuccess | RMICFailed | RUnknownDevEUI | ROther | RUnexpected.
@@ -161,10 +169,10 @@ Record treq := mkTReq {
 
 Definition JoinRequestType : N := 255.     (* lorawan.JoinRequestType = 0xff; RejoinRequestType0/1/2 = 0/1/2 *)
 
-(* setJoinNonce *)
+(* setJoinNonce (after the fix: negative values are refused too) *)
 Definition set_join_nonce (dk : devkeys) : outcome N :=
-  if (16777215 <? dk_joinnonce dk)%Z then Err else
-  Ok (Z.to_N (dk_joinnonce dk mod 4294967296)).     (* lorawan.JoinNonce(int) : uint32 *)
+  if (dk_joinnonce dk <? 0)%Z || (16777215 <? dk_joinnonce dk)%Z then Err else
+  Ok (Z.to_N (dk_joinnonce dk)).
 
 (* the optional CFList of create(Re)JoinAnsPayload *)
 Definition opt_cflist (bs : list N) : outcome (option cflist) :=
@@ -173,11 +181,13 @@ Definition opt_cflist (bs : list N) : outcome (option cflist) :=
 (* join-accept construction shared by both flows: payload, MIC, encryption, wire bytes *)
 Definition build_join_accept (joinnonce : N) (netid : list N) (t : treq) (jointype : N) (joineui : list N)
     (devnonce : N) (mickey enckey : list N) : outcome (list N) :=
+  (* after the fix: RxDelay outside 0..15 is refused before the uint8 conversion *)
+  if (t_rxdelay t <? 0)%Z || (15 <? t_rxdelay t)%Z then Err else
   do cfl <- opt_cflist (t_cflist t);
   let '(optneg, rx2, rx1) := t_dl t in
   let p := mkPHY JoinAccept 0
              (PLJoinAccept joinnonce netid (t_devaddr t) optneg rx2 rx1
-                           (Z.to_N (t_rxdelay t mod 256)) cfl) [0; 0; 0; 0] in   (* uint8(RxDelay) *)
+                           (Z.to_N (t_rxdelay t)) cfl) [0; 0; 0; 0] in
   do p1 <- set_down_join_mic jointype joineui devnonce mickey p;
   do p2 <- encrypt_join_accept enckey p1;
   phy_marshal p2.
@@ -190,8 +200,10 @@ Definition join_pipeline (sender receiver : list N) (t : treq) (dk : devkeys)
     (aslabel askek nslabel nskek : list N) : presult (list N * keyset) :=
   pdo p <- lift (phy_unmarshal (t_phy t));
   pdo netid <- lift (unmarshal_text 3 sender);
-  pdo joineui <- lift (unmarshal_text 8 receiver);
-  pdo devnonce <- match pl p with PLJoinRequest _ _ dn => POk dn | _ => POther end;
+  pdo _ <- lift (unmarshal_text 8 receiver);           (* ReceiverID must be an EUI64 text ... *)
+  (* ... but (after the fix) the JoinEUI of the join-request frame is the one used *)
+  pdo jd <- match pl p with PLJoinRequest je _ dn => POk (je, dn) | _ => POther end;
+  let '(joineui, devnonce) := jd in
   pdo ok <- lift (validate_up_join_mic (dk_nwkkey dk) p);
   if negb ok then PMic else
   pdo jn <- lift (set_join_nonce dk);
@@ -214,13 +226,14 @@ Definition rejoin_pipeline (sender receiver : list N) (t : treq) (dk : devkeys)
     (aslabel askek nslabel nskek : list N) : presult (list N * keyset) :=
   pdo p <- lift (phy_unmarshal (t_phy t));
   pdo netid <- lift (unmarshal_text 3 sender);
-  pdo joineui <- lift (unmarshal_text 8 receiver);
+  pdo rid <- lift (unmarshal_text 8 receiver);
+  (* type 0 / 2 frames carry no JoinEUI: ReceiverID; type 1 (after the fix): the JoinEUI of the frame *)
   pdo tn <- match pl p with
-            | PLRejoin02 ty _ _ rc => POk (ty, rc)
-            | PLRejoin1 ty _ _ rc => POk (ty, rc)
+            | PLRejoin02 ty _ _ rc => POk (ty, rid, rc)
+            | PLRejoin1 ty je _ rc => POk (ty, je, rc)
             | _ => POther
             end;
-  let '(jointype, devnonce) := tn in
+  let '(jointype, joineui, devnonce) := tn in
   pdo jn <- lift (set_join_nonce dk);
   (* fact (2): OptNeg of the zero-valued joinReqPayload *)
   pdo sk <- lift (session_keys false dk netid joineui jn devnonce);
@@ -282,7 +295,8 @@ Definition handle_activation (mt : ansmtype)
       | _ => APanic
       end
     end
-  | Err => ABare 400 ROther
+  (* after the fix: the base payload has been decoded, the error answer mirrors it *)
+  | Err => AMsg 400 mt (r_receiver r) (r_sender r) (r_txid r) ROther [] None no_keys None
   | _ => APanic
   end.
 
@@ -297,6 +311,19 @@ Definition handle_homens (cfg : config) (r : request) : answer :=
     | NotFound => ans 400 RUnknownDevEUI (zero_bytes 3)
     | LookErr => ans 500 ROther (zero_bytes 3)
     end
+  | Err => AMsg 400 MHomeNSAns (r_receiver r) (r_sender r) (r_txid r) ROther [] None no_keys (Some (zero_bytes 3))
+  | _ => APanic
+  end.
+
+(* json.Unmarshal into the typed payload fails inside encoding/json: mirrored error of the served type *)
+Definition member_error (r : request) : answer :=
+  match base_decode r with
+  | Ok _ =>
+    let err mt hn := AMsg 400 mt (r_receiver r) (r_sender r) (r_txid r) ROther [] None no_keys hn in
+    if bytes_eqb (r_mtype r) s_JoinReq then err MJoinAns None
+    else if bytes_eqb (r_mtype r) s_RejoinReq then err MRejoinAns None
+    else if bytes_eqb (r_mtype r) s_HomeNSReq then err MHomeNSAns (Some (zero_bytes 3))
+    else ABare 400 ROther
   | Err => ABare 400 ROther
   | _ => APanic
   end.
@@ -305,6 +332,7 @@ Definition handle_homens (cfg : config) (r : request) : answer :=
 Definition handle (cfg : config) (b : body) : answer :=
   match b with
   | BadJSON => ABare 400 ROther
+  | BadMember r => member_error r
   | Body r =>
     match base_decode r with
     | Ok _ =>
